@@ -4,7 +4,9 @@ import (
 	"context"
 	"fmt"
 	"reflect"
+	"sort"
 	"strings"
+	"sync"
 	"time"
 
 	"mvdan.cc/sh/v3/interp"
@@ -71,6 +73,12 @@ var c30IncrAtoms = []string{
 	". ./nonexistent",
 	"exit 300",
 	"exit x",
+	"unset x; echo \"x=${x-unset}\"",
+	"arr2=(1 2); arr2+=(3); echo ${#arr2[@]}",
+	"echo data >f.txt; read fv <f.txt; echo \"$fv\"",
+	"pushd / >/dev/null; dirs",
+	"getopts ab o -a -b; echo \"$o $OPTIND\"",
+	"echo \"$_ ${PIPESTATUS[*]} $!\"",
 }
 
 // c30IncrPrograms enumerates the clause 2 cases (emit may be nil to only
@@ -116,7 +124,7 @@ func c30IncrPrograms(c *vc.Ctx, emit func(c30Case)) string {
 }
 
 // c30IncrCore is the number of leading atoms used for sequences longer than 3.
-const c30IncrCore = 24
+const c30IncrCore = 20
 
 // c30IncrRun runs file on a new Runner in a fresh work directory, whole or
 // statement by statement. trapSet reports whether an EXIT trap is installed
@@ -176,6 +184,7 @@ func c30Incr(c *vc.Ctx, t c30Case) *vc.Fail {
 	w1, trapW, to1 := c30IncrRun(s, file, true, wd)
 	if to1 {
 		c.Count("incr_skipped_timeout", 1)
+		c30NoteSkipped(c, "timeout", t.Src)
 		return nil // the scratch is not returned: a stuck goroutine may still use it
 	}
 	w2, _, to2 := c30IncrRun(s, file, true, wd)
@@ -185,6 +194,7 @@ func c30Incr(c *vc.Ctx, t c30Case) *vc.Fail {
 	}
 	if d := c30DiffFields(w1, w2); len(d) > 0 {
 		c.Count("incr_skipped_nondeterministic", 1)
+		c30NoteSkipped(c, "nondeterministic", t.Src)
 		c30PutScratch(s)
 		return nil
 	}
@@ -272,4 +282,18 @@ func c30ExitTrap(r *interp.Runner) string {
 		panic("c30: interp.Runner has no string field callbackExit; the harness must be adapted")
 	}
 	return f.String()
+}
+
+var c30SkipMu sync.Mutex
+
+// c30NoteSkipped lists the skipped clause-2 programs in the evidence.
+func c30NoteSkipped(c *vc.Ctx, why, src string) {
+	c30SkipMu.Lock()
+	defer c30SkipMu.Unlock()
+	l, _ := c.Extra["incr_skipped_programs"].([]string)
+	if len(l) < 40 {
+		l = append(l, why+": "+src)
+		sort.Strings(l)
+		c.Extra["incr_skipped_programs"] = l
+	}
 }
